@@ -15,6 +15,8 @@ class Life:
         self.ops.append({"op": "Reset", "interval": self.interval})
         self.running = False
         self.waitq = 0
+        self.early = False     # a caller is blocked in Wait since before the loop ended
+        self.got = 0
         self.now = 0
         self.t0 = 0
         self.failat = 0
@@ -34,6 +36,9 @@ class Life:
 
     def sleep(self, d):
         self.ops.append({"op": "Sleep", "d": d})
+        self.advance(d)
+
+    def advance(self, d):
         until = self.now + d
         while self.running:
             nxt = self.t0 + ((self.now - self.t0) // self.interval + 1) * self.interval
@@ -42,15 +47,30 @@ class Life:
             self.now = nxt
             self.since += 1
             if self.failat and self.since == self.failat:
-                self.running = False
-                self.waitq += 1
+                self.ended()
         self.now = until
+
+    def ended(self):
+        self.running = False
+        if self.early:
+            self.early, self.got = False, self.got + 1
+        else:
+            self.waitq += 1
 
     def step(self):
         r = self.r
+        if self.got > 0:
+            self.ops.append({"op": "Collect"})
+            self.got = 0
+            return
         if self.waitq > 0:
             self.ops.append({"op": "Wait"})
             self.waitq -= 1
+            return
+        if not self.early and r.random() < 0.08:
+            self.ops.append({"op": "WaitEarly"})
+            self.early = True
+            self.advance(1)        # the driver watches the blocked call for one second
             return
         if not self.running:
             x = r.random()
@@ -74,8 +94,7 @@ class Life:
             self.since += 1
         else:
             self.ops.append({"op": "Stop"})
-            self.running = False
-            self.waitq += 1
+            self.ended()
 
 
 def life_script(seed, ntraces, nops):
@@ -86,10 +105,14 @@ def life_script(seed, ntraces, nops):
         for _ in range(nops):
             g.step()
         # end tidy: stop a running loop and collect its result
+        if g.early and not g.running:
+            g.start()                      # the caller still blocked in Wait is released by one more run
         if g.running:
             g.ops.append({"op": "Stop"})
-            g.running = False
-            g.waitq += 1
+            g.ended()
+        if g.got > 0:
+            g.ops.append({"op": "Collect"})
+            g.got = 0
         while g.waitq > 0:
             g.ops.append({"op": "Wait"})
             g.waitq -= 1
